@@ -433,8 +433,10 @@ def gen_relin_case(rng, allowed):
             pts.append({'inputs': dict(flat), 'flat': flat})
         if len(pts) < 2:
             continue
+        # between two linearizations the user may change the public attribute complex_stepsize
+        steps = [None] + [rng.choice([None, 1e-30, 1e-20, 1e-50]) for _ in pts[1:]]
         return {'relin': True, 'trees': trees, 'vars': used, 'n': n, 'points': pts, 'config': cfg,
-                'force_alloc_complex': rng.random() < 0.4, 'tie': False}
+                'force_alloc_complex': rng.random() < 0.4, 'cs_steps': steps, 'tie': False}
     raise RuntimeError('relinearization generator failed')
 
 
